@@ -3,12 +3,13 @@ import hashlib
 import json
 import os
 
-from . import kernels, kernels_group, tables, guards
+from . import kernels, kernels_group, tables, guards, unchecked_sites, nondet_sources, cursor_sites
 
 
 def run(repo, outdir):
     report = {'failed': {}, 'parts': {}}
-    for name, mod in (('kernels', kernels), ('kernels_group', kernels_group), ('tables', tables), ('guards', guards)):
+    for name, mod in (('kernels', kernels), ('kernels_group', kernels_group), ('tables', tables), ('guards', guards), ('unchecked_sites', unchecked_sites),
+                      ('nondet_sources', nondet_sources), ('cursor_sites', cursor_sites)):
         r = mod.extract(repo, outdir)
         report['parts'][name] = r
         for k, v in r.get('failed', {}).items():
